@@ -10,8 +10,9 @@ from ..astutil import (
     raised_name, unparse, walk_local,
 )
 from ..evalx import Evaluator, Sym
-from ..report import Registry, sub
+from ..report import Registry, chain, sub
 from ._helpers_rules_b import OrderFlow
+from . import _helpers_str_c as SC
 
 R = Registry(
     "C12",
@@ -379,8 +380,11 @@ def r2(ctx):
         keyf = [kw.value for kw in srt.keywords if kw.arg == "key"]
         last = bool(keyf) and unparse(keyf[0]).replace(" ", "") in ("operator.itemgetter(-1)", "itemgetter(-1)", "lambdarow:row[-1]", "lambdar:r[-1]")
         atoms = [(a.rsplit(".", 1)[-1], p) for a, p in guard_atoms(lexical_guards(pm, st, stop=f.node))]
-        ctx.check(last and ("implicit_sentinel", True) in atoms, f"{base}:implicit-sentinel-sort",
-                  f"`{unparse(srt)[:70]}` is not a sort on the last (sentinel) column under `imv.implicit_sentinel`",
+        # ascending: Table._sentinel_column_characteristics only admits generators that count upwards (C12-R5)
+        ascending = not any(kw.arg == "reverse" and not (isinstance(kw.value, ast.Constant) and kw.value.value is False)
+                            for kw in srt.keywords)
+        ctx.check(last and ascending and ("implicit_sentinel", True) in atoms, f"{base}:implicit-sentinel-sort",
+                  f"`{unparse(srt)[:70]}` is not an ascending sort on the last (sentinel) column under `imv.implicit_sentinel`",
                   "sorted(rows, key=last column) under implicit_sentinel", f"{f.module.path}:{c.lineno}")
     # (c) lookup in parameter order, dominated by the cardinality check
     for k, inb, c, st in kinds:
@@ -538,6 +542,38 @@ def r3(ctx):
                   f"references to non-existent members: {bad}", f"{refs} references, all existing members", cls.loc)
 
 
+@R.rule("C12-R4", floor=5, template="T-GUARD/T-PATH",
+        desc="upsert clauses: a statement with a per-row bound parameter after VALUES (has_upsert_bound_parameters) is "
+             "recognised on every rendering path and for every value-less bindparam(), is only batched with RETURNING, "
+             "keeps its mark until delivery, and is then delivered one row per statement")
+def r4(ctx):
+    SC.upsert_detector(ctx)
+    SC.upsert_consumer(ctx)
+
+
+@R.rule("C12-R5", floor=2, template="T-PATH",
+        desc="a server-generated incrementing default (IDENTITY, SEQUENCE) with a negative increment is never kept as "
+             "implicit sentinel (rows are sorted ascending by the sentinel)")
+def r5(ctx):
+    # the kinds that are matched against a backend capability of the same name and are configurable generators
+    comp = ctx.index.cls(f"{COMP}::SQLCompiler")
+    opts = ctx.index.cls(f"{COMP}::InsertmanyvaluesSentinelOpts")
+    chars = ctx.index.cls("sql/base.py::_SentinelDefaultCharacterization")
+    ev = Evaluator(ctx.index, symbolic_classes={opts.name, chars.name})
+    tab = ev.class_value(comp, "_sentinel_col_non_autoinc_lookup")
+    ctx.require(isinstance(tab, dict), "_sentinel_col_non_autoinc_lookup is not a table")
+    same = sorted(k.short for k, v in tab.items() if isinstance(k, Sym) and isinstance(v, Sym) and k.short == v.short)
+    # of those, the ones whose schema object can be configured with an increment
+    schema = ctx.index.module("sql/schema.py")
+    configurable = []
+    for kind in same:
+        cands = [c for c in ctx.index.all_classes() if c.module is schema and c.name.upper() == kind]
+        if cands and ctx.index.resolve_method(cands[0], "_increment_is_negative") is not None:
+            configurable.append(kind)
+    ctx.require(len(configurable) >= 2, f"expected IDENTITY and SEQUENCE to be configurable incrementing kinds, found {configurable} of {same}")
+    SC.sentinel_negative_increment(ctx, configurable)
+
+
 # ---------------------------------------------------------------------- self-test battery
 R.mutant("compiled-slice-off-by-one", COMP,
          sub("            compiled_batch = compiled_batches[0:batch_size]\n", "            compiled_batch = compiled_batches[0 : batch_size + 1]\n"), "C12-R1")
@@ -594,3 +630,57 @@ R.mutant("benign-dialect-logging", DEF,
          sub("                    result.extend(ordered_rows)\n", "                    _n = len(ordered_rows)\n                    result.extend(ordered_rows)\n"), None)
 R.mutant("benign-added-table-row", COMP,
          sub("    _sentinel_col_autoinc_lookup = _sentinel_col_non_autoinc_lookup.union(", "    _sentinel_unused_marker = 0\n    _sentinel_col_autoinc_lookup = _sentinel_col_non_autoinc_lookup.union("), None)
+# ---- R2 addition ----
+R.mutant("implicit-sentinel-sorted-descending", DEF,
+         sub("                            sorted(rows, key=operator.itemgetter(-1))\n", "                            sorted(rows, key=operator.itemgetter(-1), reverse=True)\n"), "C12-R2")
+# ---- R4 (upsert chain: detector, batching guard, ordering, consumer) ----
+_DETECT = (
+    "        # Detect parametrized bindparams in upsert SET clause for issue #13130\n"
+    "        if (\n"
+    "            is_upsert_set\n"
+    "            and bindparam.value is None\n"
+    "            and bindparam.callable is None\n"
+    "            and self._insertmanyvalues is not None\n"
+    "        ):\n"
+    "            self._insertmanyvalues = self._insertmanyvalues._replace(\n"
+    "                has_upsert_bound_parameters=True\n"
+    "            )\n"
+    "\n"
+)
+R.mutant("r4-detection-moved-below-early-returns", COMP,
+         chain(sub(_DETECT + "        if not skip_bind_expression:\n", "        if not skip_bind_expression:\n"),
+               sub("        name = self._truncate_bindparam(bindparam)\n\n        if name in self.binds:\n",
+                   _DETECT + "        name = self._truncate_bindparam(bindparam)\n\n        if name in self.binds:\n")), "C12-R4")
+R.mutant("r4-detection-only-for-required-parameters", COMP,
+         sub("            and bindparam.value is None\n            and bindparam.callable is None\n            and self._insertmanyvalues is not None\n",
+             "            and bindparam.required\n            and self._insertmanyvalues is not None\n"), "C12-R4")
+R.mutant("r4-upsert-batched-without-returning", "sql/crud.py",
+         sub("                    dialect.use_insertmanyvalues_wo_returning\n", "                    dialect.use_insertmanyvalues_wo_returning or True\n"), "C12-R4")
+R.mutant("r4-post-values-clause-rendered-before-imv-exists", COMP,
+         chain(sub("        if insert_stmt.select is not None:\n            # placed here by crud.py\n",
+                   "        post_values_text = (\n            self.process(insert_stmt._post_values_clause, **kw)\n            if insert_stmt._post_values_clause is not None\n            else None\n        )\n"
+                   "        if insert_stmt.select is not None:\n            # placed here by crud.py\n"),
+               sub("            post_values_clause = self.process(\n                insert_stmt._post_values_clause, **kw\n            )\n",
+                   "            post_values_clause = post_values_text\n")), "C12-R4")
+R.mutant("benign-r4-consumer-conjuncts-reordered", COMP,
+         sub("            imv.has_upsert_bound_parameters\n            and not imv.embed_values_counter\n            and self._result_columns\n",
+             "            self._result_columns\n            and imv.has_upsert_bound_parameters\n            and not imv.embed_values_counter\n"), None)
+R.mutant("benign-r4-imv-normalised-with-replace-after-post-values", COMP,
+         sub("        if returning_clause and not self.returning_precedes_values:\n            text += \" \" + returning_clause\n",
+             "        if returning_clause and not self.returning_precedes_values:\n            text += \" \" + returning_clause\n"
+             "        if self._insertmanyvalues is not None:\n            self._insertmanyvalues = self._insertmanyvalues._replace(\n                num_positional_params_counted=counted_bindparam\n            )\n"), None)
+# ---- R5 (negative increment never an implicit sentinel) ----
+R.mutant("r5-negative-identity-kept-as-implicit-sentinel", "sql/schema.py",
+         sub("                if the_sentinel_zero.identity._increment_is_negative:\n                    if sentinel_is_explicit:\n                        raise exc.InvalidRequestError(\n                            \"Can't use IDENTITY default with negative \"\n                            \"increment as an explicit sentinel column\"\n                        )\n                    else:\n                        if sentinel_is_autoinc:\n                            autoinc_col = None\n                            sentinel_is_autoinc = False\n                        the_sentinel = None\n                else:\n                    default_characterization = (\n                        _SentinelDefaultCharacterization.IDENTITY\n                    )\n",
+             "                if (\n                    sentinel_is_explicit\n                    and the_sentinel_zero.identity._increment_is_negative\n                ):\n                    raise exc.InvalidRequestError(\n                        \"Can't use IDENTITY default with negative \"\n                        \"increment as an explicit sentinel column\"\n                    )\n                default_characterization = (\n                    _SentinelDefaultCharacterization.IDENTITY\n                )\n"), "C12-R5")
+R.mutant("r5-negative-sequence-candidate-not-dropped", "sql/schema.py",
+         sub("                            if sentinel_is_autoinc:\n                                autoinc_col = None\n                                sentinel_is_autoinc = False\n                            the_sentinel = None\n\n                    default_characterization = (\n                        _SentinelDefaultCharacterization.SEQUENCE\n",
+             "                            if sentinel_is_autoinc:\n                                autoinc_col = None\n                                sentinel_is_autoinc = False\n\n                    default_characterization = (\n                        _SentinelDefaultCharacterization.SEQUENCE\n"), "C12-R5")
+R.mutant("r5-identity-increment-not-tested", "sql/schema.py",
+         sub("                if the_sentinel_zero.identity._increment_is_negative:\n", "                if the_sentinel_zero.identity is None:\n"), "C12-R5")
+R.mutant("benign-r5-negative-test-in-a-local", "sql/schema.py",
+         sub("                if the_sentinel_zero.identity._increment_is_negative:\n",
+             "                counts_down = the_sentinel_zero.identity._increment_is_negative\n                if counts_down:\n"), None)
+R.mutant("benign-r5-explicit-test-first", "sql/schema.py",
+         sub("                if the_sentinel_zero.identity._increment_is_negative:\n                    if sentinel_is_explicit:\n                        raise exc.InvalidRequestError(\n                            \"Can't use IDENTITY default with negative \"\n                            \"increment as an explicit sentinel column\"\n                        )\n                    else:\n",
+             "                if the_sentinel_zero.identity._increment_is_negative:\n                    if not sentinel_is_explicit:\n                        pass\n                    else:\n                        raise exc.InvalidRequestError(\n                            \"Can't use IDENTITY default with negative \"\n                            \"increment as an explicit sentinel column\"\n                        )\n                    if True:\n"), None)
